@@ -38,25 +38,39 @@ Record shapes : Type := {
   s_h_validate_param : htable;
   s_min_tests : list btest;               (* the if / elif chain: each branch rejects *)
   s_min_dom : domkind;
+  s_min_dom_fmt : list fmtarg;
   s_max_tests : list btest;
   s_max_dom : domkind;
+  s_max_dom_fmt : list fmtarg;
   s_minlen_dom : domkind;
   s_minlen_op : cmpop;                    (* len(value) <op> self._length rejects *)
+  s_minlen_dom_fmt : list fmtarg;
+  s_minlen_fmt : list fmtarg;
   s_maxlen_dom : domkind;
   s_maxlen_op : cmpop;
+  s_maxlen_dom_fmt : list fmtarg;
+  s_maxlen_fmt : list fmtarg;
   s_notempty : notempty_shape;
   s_composite : composite_shape;
   s_foreach : foreach_shape;
   s_h_is_uuid : htable;
+  s_h_is_uuid_fmt : list fmtarg;          (* what the message of the rejecting handler formats *)
   s_h_is_enum : htable;
+  s_h_is_enum_fmt : list fmtarg;
   s_enum_float_guard : bool;              (* IntEnum: a float that is no whole number raises ValueError before int() *)
   s_h_iso : htable;
+  s_h_iso_fmt : list fmtarg;
   s_unix_dom : domkind;
+  s_unix_dom_fmt : list fmtarg;
   s_h_unix_float : htable;
+  s_h_unix_float_fmt : list fmtarg;
   s_h_unix_add : htable;
+  s_h_unix_add_fmt : list fmtarg;
   s_email_mode : matchmode;
+  s_email_fmt : list fmtarg;
   s_regex_email : re;
   s_matchpattern_mode : matchmode;
+  s_matchpattern_fmt : list fmtarg;
   s_cv_norm : list normop;
   s_cv_true : list str;
   s_cv_false : list str;
@@ -71,25 +85,39 @@ Definition gen_shapes : shapes := {|
   s_h_validate_param := Gen.Validators.h_validate_param;
   s_min_tests := Gen.Validators.min_tests;
   s_min_dom := Gen.Validators.min_dom;
+  s_min_dom_fmt := Gen.Validators.min_dom_fmt;
   s_max_tests := Gen.Validators.max_tests;
   s_max_dom := Gen.Validators.max_dom;
+  s_max_dom_fmt := Gen.Validators.max_dom_fmt;
   s_minlen_dom := Gen.Validators.minlen_dom;
   s_minlen_op := Gen.Validators.minlen_op;
+  s_minlen_dom_fmt := Gen.Validators.minlen_dom_fmt;
+  s_minlen_fmt := Gen.Validators.minlen_fmt;
   s_maxlen_dom := Gen.Validators.maxlen_dom;
   s_maxlen_op := Gen.Validators.maxlen_op;
+  s_maxlen_dom_fmt := Gen.Validators.maxlen_dom_fmt;
+  s_maxlen_fmt := Gen.Validators.maxlen_fmt;
   s_notempty := Gen.Validators.notempty_cfg;
   s_composite := Gen.Validators.composite_cfg;
   s_foreach := Gen.Validators.foreach_cfg;
   s_h_is_uuid := Gen.Validators.h_is_uuid;
+  s_h_is_uuid_fmt := Gen.Validators.h_is_uuid_fmt;
   s_h_is_enum := Gen.Validators.h_is_enum;
+  s_h_is_enum_fmt := Gen.Validators.h_is_enum_fmt;
   s_enum_float_guard := Gen.Validators.enum_float_guard;
   s_h_iso := Gen.Validators.h_iso;
+  s_h_iso_fmt := Gen.Validators.h_iso_fmt;
   s_unix_dom := Gen.Validators.unix_dom;
+  s_unix_dom_fmt := Gen.Validators.unix_dom_fmt;
   s_h_unix_float := Gen.Validators.h_unix_float;
+  s_h_unix_float_fmt := Gen.Validators.h_unix_float_fmt;
   s_h_unix_add := Gen.Validators.h_unix_add;
+  s_h_unix_add_fmt := Gen.Validators.h_unix_add_fmt;
   s_email_mode := Gen.Validators.email_mode;
+  s_email_fmt := Gen.Validators.email_fmt;
   s_regex_email := Gen.Validators.regex_email;
   s_matchpattern_mode := Gen.Validators.matchpattern_mode;
+  s_matchpattern_fmt := Gen.Validators.matchpattern_fmt;
   s_cv_norm := Gen.Validators.cv_norm;
   s_cv_true := Gen.Validators.cv_true;
   s_cv_false := Gen.Validators.cv_false;
@@ -111,18 +139,20 @@ Fixpoint bound_tests (VE : exn) (tests : list btest) (bound : value) (incl : boo
       else
         match py_cmp (bt_op t) v bound with
         | Raise e => Raise e
-        | Ok b => if xorb b (bt_neg t) && Bool.eqb incl (bt_pol t) then Raise VE else bound_tests VE ts' bound incl v
+        | Ok b => if xorb b (bt_neg t) && Bool.eqb incl (bt_pol t) then reject VE (bt_fmt t) v bound
+                  else bound_tests VE ts' bound incl v
         end
   end.
-Definition bound_validate (VE : exn) (dom : domkind) (tests : list btest) (bound : value) (incl : bool)
+Definition bound_validate (VE : exn) (dom : domkind) (dom_fmt : list fmtarg) (tests : list btest) (bound : value) (incl : bool)
     (v : value) : outcome value :=
-  if negb (in_dom dom v) then Raise VE else bound_tests VE tests bound incl v.
+  if negb (in_dom dom v) then reject VE dom_fmt v bound else bound_tests VE tests bound incl v.
 
-Definition length_validate (VE : exn) (dom : domkind) (op : cmpop) (n : Z) (v : value) : outcome value :=
-  if negb (in_dom dom v) then Raise VE else
+Definition length_validate (VE : exn) (dom : domkind) (op : cmpop) (dom_fmt fmt : list fmtarg) (n : Z) (v : value)
+    : outcome value :=
+  if negb (in_dom dom v) then reject VE dom_fmt v VNone else
   match py_len v with
   | None => Raise TypeErrorC
-  | Some l => if z_cmp op l n then Raise VE else Ok v
+  | Some l => if z_cmp op l n then reject VE fmt v VNone else Ok v
   end.
 
 Definition is_nil {A} (l : list A) : bool := match l with [] => true | _ => false end.
@@ -131,7 +161,7 @@ Definition notempty_validate (VE : exn) (c : notempty_shape) (strip : bool) (v :
   match v with
   | VStr s =>
       let t := py_strip s in
-      if is_nil (if ne_test_strips c then t else s) then Raise VE
+      if is_nil (if ne_test_strips c then t else s) then reject VE (ne_fmt_str c) v VNone
       else Ok (match ne_return c with
                | NERetStripIfFlag => if strip then VStr t else v
                | NERetStripAlways => VStr t
@@ -141,17 +171,17 @@ Definition notempty_validate (VE : exn) (c : notempty_shape) (strip : bool) (v :
       if in_dom (ne_seq_dom c) v then
         match py_len v with
         | None => Raise TypeErrorC
-        | Some l => if z_cmp (ne_seq_op c) l (ne_seq_lit c) then Raise VE else Ok v
+        | Some l => if z_cmp (ne_seq_op c) l (ne_seq_lit c) then reject VE (ne_fmt_seq c) v VNone else Ok v
         end
-      else Raise VE
+      else reject VE (ne_fmt_else c) v VNone
   end.
 
-Definition email_validate (VE : exn) (mode : matchmode) (dflt : re) (pat : option re) (pp : ppkind) (v : value)
-    : outcome value :=
+Definition email_validate (VE : exn) (mode : matchmode) (fmt : list fmtarg) (dflt : re) (pat : option re) (pp : ppkind)
+    (v : value) : outcome value :=
   match v with
   | VStr s =>
       let r := match pat with Some r => r | None => dflt end in
-      if re_test mode r s then Ok (pp_apply pp s) else Raise VE
+      if re_test mode r s then Ok (pp_apply pp s) else reject VE fmt v VNone
   | _ => Raise TypeErrorC
   end.
 
@@ -228,7 +258,7 @@ Section Sem.
   Definition uuid_validate (convert : bool) (v : value) : outcome value :=
     match bind (py_str O v) (o_uuid O) with
     | Ok u => Ok (if convert then u else v)
-    | Raise e => handle VE (s_h_is_uuid S) e
+    | Raise e => handle (reject VE (s_h_is_uuid_fmt S) v VNone) (s_h_is_uuid S) e
     end.
 
   (* int(value) where value may also be a member of the IntEnum itself *)
@@ -263,40 +293,40 @@ Section Sem.
       else enum_lookup members v1 in
     match looked with
     | Ok m => Ok (if convert then m else v1)
-    | Raise e => handle VE (s_h_is_enum S) e
+    | Raise e => handle (reject VE (s_h_is_enum_fmt S) v1 VNone) (s_h_is_enum S) e
     end.
 
   Definition match_validate (pat : re) (v : value) : outcome value :=
     match py_str O v with
     | Raise e => Raise e
-    | Ok s => if re_test (s_matchpattern_mode S) pat s then Ok v else Raise VE
+    | Ok s => if re_test (s_matchpattern_mode S) pat s then Ok v else reject VE (s_matchpattern_fmt S) v VNone
     end.
 
   Definition iso_validate (v : value) : outcome value :=
     match o_fromiso O v with
     | Ok d => Ok d
-    | Raise e => handle VE (s_h_iso S) e
+    | Raise e => handle (reject VE (s_h_iso_fmt S) v VNone) (s_h_iso S) e
     end.
 
   Definition unix_validate (v : value) : outcome value :=
-    if negb (in_dom (s_unix_dom S) v) then Raise VE else
+    if negb (in_dom (s_unix_dom S) v) then reject VE (s_unix_dom_fmt S) v VNone else
     match py_float O v with
-    | Raise e => handle VE (s_h_unix_float S) e
+    | Raise e => handle (reject VE (s_h_unix_float_fmt S) v VNone) (s_h_unix_float S) e
     | Ok f =>
         match o_epoch_plus O f with
         | Ok d => Ok d
-        | Raise e => handle VE (s_h_unix_add S) e
+        | Raise e => handle (reject VE (s_h_unix_add_fmt S) v VNone) (s_h_unix_add S) e
         end
     end.
 
   Fixpoint validate (w : validator) (v : value) {struct w} : outcome value :=
     match w with
-    | WMin b incl => bound_validate VE (s_min_dom S) (s_min_tests S) b incl v
-    | WMax b incl => bound_validate VE (s_max_dom S) (s_max_tests S) b incl v
-    | WMinLen n => length_validate VE (s_minlen_dom S) (s_minlen_op S) n v
-    | WMaxLen n => length_validate VE (s_maxlen_dom S) (s_maxlen_op S) n v
+    | WMin b incl => bound_validate VE (s_min_dom S) (s_min_dom_fmt S) (s_min_tests S) b incl v
+    | WMax b incl => bound_validate VE (s_max_dom S) (s_max_dom_fmt S) (s_max_tests S) b incl v
+    | WMinLen n => length_validate VE (s_minlen_dom S) (s_minlen_op S) (s_minlen_dom_fmt S) (s_minlen_fmt S) n v
+    | WMaxLen n => length_validate VE (s_maxlen_dom S) (s_maxlen_op S) (s_maxlen_dom_fmt S) (s_maxlen_fmt S) n v
     | WNotEmpty strip => notempty_validate VE (s_notempty S) strip v
-    | WEmail pat pp => email_validate VE (s_email_mode S) (s_regex_email S) pat pp v
+    | WEmail pat pp => email_validate VE (s_email_mode S) (s_email_fmt S) (s_regex_email S) pat pp v
     | WIsUuid convert => uuid_validate convert v
     | WIsEnum ms ie convert upper => enum_validate ms ie convert upper v
     | WMatch pat => match_validate pat v
@@ -308,7 +338,7 @@ Section Sem.
         | Ok cur => Ok (if co_returns_input (s_composite S) then v else cur)
         end
     | WForEach cs =>
-        if negb (in_dom (fe_dom (s_foreach S)) v) then Raise VE else
+        if negb (in_dom (fe_dom (s_foreach S)) v) then reject VE (fe_dom_fmt (s_foreach S)) v VNone else
         match iter_items v with
         | None => Raise TypeErrorC
         | Some items =>
@@ -324,7 +354,7 @@ Section Sem.
   Definition validate_param (w : validator) (v : value) : outcome value :=
     match validate w v with
     | Ok r => Ok r
-    | Raise e => handle VE (s_h_validate_param S) e
+    | Raise e => handle (Raise VE) (s_h_validate_param S) e
     end.
 
   (* ---------- convert_value ---------------------------------------------------------------------- *)
@@ -372,7 +402,7 @@ Section Sem.
   Definition convert_value (v : value) (t : ttype) : outcome value :=
     if isinstance_t v t then Ok v else
     match normalise (s_cv_norm S) v with
-    | Raise e => handle VE (s_h_convert_norm S) e
+    | Raise e => handle (Raise VE) (s_h_convert_norm S) e
     | Ok s =>
     match t with
     | TBool =>
@@ -385,12 +415,12 @@ Section Sem.
     | TInt =>
         match py_int_of_str O s with
         | Ok z => Ok (VInt z)
-        | Raise e => handle VE (s_h_convert S) e
+        | Raise e => handle (Raise VE) (s_h_convert S) e
         end
     | TFloat =>
         match o_float_of_str O s with
         | Ok f => Ok (VFloat f)
-        | Raise e => handle VE (s_h_convert S) e
+        | Raise e => handle (Raise VE) (s_h_convert S) e
         end
     end
     end.
